@@ -746,3 +746,90 @@ def run(ctx) -> None:  # noqa: F811
               "coordinates are not the fractional ones, so F changes under a lattice translation and centring-forbidden "
               "reflections become non-zero for non-orthogonal cells", key_detail="fractional")
     _inner_run_c27b(ctx)
+
+
+# ---- added after the mutation sweep: the phase of the structure factor is an integer multiple of 2*pi*i
+_inner_run_c27c = run
+
+
+def run(ctx) -> None:  # noqa: F811
+    import ast as _ast
+    from fractions import Fraction as _Fr
+
+    from ..cfg import DataFlow as _DF
+    from ..model import call_name as _cn, norm_text as _nt, walk_no_nested as _walk
+    from ..terms import PI as _PI, Normalizer as _Nz, Poly as _Poly
+
+    ctx.rule("R-PHASE2PI", "calculate_structure_factors evaluates exp(s · X) with X = (fractional coordinates)·hklᵀ; the "
+             "scalar s collected from all scalar factors of the exponent (constants, pi, scalar temporaries; products, "
+             "quotients and matrix products) is a non-zero integer multiple of 2·pi·i.  Only then the integers that a "
+             "lattice translation adds to X change the phase by a multiple of 2·pi — F is invariant and the centring "
+             "translations cancel the forbidden reflections — and only a purely imaginary s gives F(-h) = conj F(h)")
+    from ..rules import deferred as _deferred
+
+    def new():
+        f = ctx.repo.function("abtem.bloch.dynamical", "calculate_structure_factors")
+        df = _DF(f.node)
+        exps = [c for c in _walk(f.node) if isinstance(c, _ast.Call) and (_cn(c) or "").split(".")[-1] == "exp" and c.args]
+        ctx.require(len(exps) == 1, f"{f.qualname}: expected one exp(...) phase")
+        st = next(s_ for s_ in _walk(f.node) if isinstance(s_, _ast.stmt) and any(x is exps[0] for x in _ast.walk(s_))
+                  and not isinstance(s_, (_ast.If, _ast.For, _ast.With, _ast.Try, _ast.FunctionDef)))
+        at0 = df.cfg.node_of(st).idx
+
+        def scalar_expr(e) -> bool:
+            if isinstance(e, _ast.Constant) and isinstance(e.value, (int, float, complex)) and not isinstance(e.value, bool):
+                return True
+            if isinstance(e, _ast.Attribute) and e.attr == "pi":
+                return True
+            if isinstance(e, _ast.UnaryOp) and isinstance(e.op, (_ast.USub, _ast.UAdd)):
+                return scalar_expr(e.operand)
+            if isinstance(e, _ast.BinOp) and isinstance(e.op, (_ast.Mult, _ast.Div, _ast.Add, _ast.Sub, _ast.Pow)):
+                return scalar_expr(e.left) and scalar_expr(e.right)
+            return False
+
+        n_matrix = 0
+
+        def scal(e, at, depth=0) -> _Poly:
+            nonlocal n_matrix
+            if depth > 20:
+                raise AnalysisError(f"{f.qualname}: phase expression too deep")
+            if scalar_expr(e):
+                return _Nz().norm(e)
+            if isinstance(e, _ast.UnaryOp) and isinstance(e.op, _ast.USub):
+                return -scal(e.operand, at, depth + 1)
+            if isinstance(e, _ast.BinOp) and isinstance(e.op, (_ast.Mult, _ast.MatMult)):
+                return scal(e.left, at, depth + 1) * scal(e.right, at, depth + 1)
+            if isinstance(e, _ast.BinOp) and isinstance(e.op, _ast.Div):
+                return scal(e.left, at, depth + 1) * scal(e.right, at, depth + 1).inverse()
+            if isinstance(e, _ast.Call) and (_cn(e) or "").split(".")[-1] in ("dot", "matmul") and len(e.args) == 2:
+                return scal(e.args[0], at, depth + 1) * scal(e.args[1], at, depth + 1)
+            if isinstance(e, _ast.Name):
+                d = df.single_def(at, e.id)
+                if d is not None and d.kind == "assign" and d.value is not None and scalar_expr(d.value):
+                    return _Nz().norm(d.value)
+                if d is not None and d.kind == "assign" and d.value is not None and isinstance(d.value, _ast.BinOp) and \
+                        isinstance(d.value.op, (_ast.Mult, _ast.MatMult, _ast.Div)):
+                    stt = df.cfg.nodes[d.node].ast
+                    if isinstance(stt, _ast.Assign) and len(stt.targets) == 1 and isinstance(stt.targets[0], _ast.Name):
+                        return scal(d.value, d.node, depth + 1)
+            if isinstance(e, (_ast.BinOp,)) and isinstance(e.op, (_ast.Add, _ast.Sub)):
+                raise AnalysisError(f"{f.qualname}: the phase `{_nt(e)[:50]}` is a sum, not a scalar times the coordinates")
+            n_matrix += 1
+            return _Poly.const(1)  # an array factor
+
+        s = scal(exps[0].args[0], at0)
+        ctx.require(n_matrix >= 1, f"{f.qualname}: the phase contains no array factor")
+        ok = False
+        shown = s.key()
+        if s.is_monomial():
+            (mono, coef), = s.terms.items()
+            exps_ = dict(mono)
+            ok = set(exps_) == {"𝑖", _PI} and exps_["𝑖"] == 1 and exps_[_PI] == 1 and coef.denominator == 1 and \
+                coef != 0 and coef % 2 == 0
+        ctx.check(ok, "R-PHASE2PI", f"{f.qualname}:phase scalar", f.loc(exps[0]),
+                  f"exp({shown} · r·hkl): an integer multiple of 2·pi·i",
+                  f"the phase is exp(({shown}) · r·hkl), and {shown} is not a non-zero integer multiple of 2·pi·i: adding a "
+                  "lattice vector to every atom (an integer added to r·hkl) changes the structure factors, and "
+                  "centring-forbidden reflections do not vanish", key_detail="phase")
+
+    _deferred.run(ctx, new, _inner_run_c27c)
